@@ -33,7 +33,8 @@ RULE = (
 RULE += (
     " No-op rewrites of a .bss-like tail (gap of uninitialised bytes + data block without bytes) must equal the input with whole nops in a code block / zeros in a data block in the gap (a gap behind code that is no multiple of the nop is refused);"
     " split: tables are filled in shuffled order and every entry must lie inside the piece it is keyed to;"
-    " 40% of the PE modules of the alignment workload have no alignment table."
+    " 40% of the PE modules of the alignment workload have no alignment table;"
+    " join with per-decode-mode nop encodings: a padding block has the decode mode of the block in front of it; split/join with tables=[] must leave the module's own tables untouched."
 )
 ASSUMPTIONS = [
     "PaddingError is an accepted outcome only when the required padding is not a multiple of the nop size",
